@@ -51,6 +51,20 @@ func VerifCheck_rewrite() {
 		verifReach("nomatch")
 	}
 	verifAssert("rewritten==plain", verifEqInts(sa, sb))
+	// the same two programs through the real scan loop: the bump-along marker has no effect on a
+	// position-by-position scan, it only shows where the scan resumes after a failed attempt
+	c, err := verifRE.FindRunesMatchStartingAt(t, start)
+	if err != nil {
+		verifFail("error-find", err.Error())
+	}
+	d, err := verifRE2.FindRunesMatchStartingAt(t, start)
+	if err != nil {
+		verifFail("error-find-norewrite", err.Error())
+	}
+	sc, sd := verifSnap(c), verifSnap(d)
+	verifNoteInts("rewritten-find", sc)
+	verifNoteInts("plain-find", sd)
+	verifAssert("rewritten==plain/find", verifEqInts(sc, sd))
 	verifReach("end")
 }
 
@@ -195,11 +209,22 @@ func VerifCheck_limit() {
 	} else {
 		t = verifText(n)
 	}
+	if pad := verifParam("pad"); pad != "" {
+		// a concrete run in front of the symbolic runes: the backtracking stack has to grow past its
+		// initial size (64 slots) before the symbolic part decides the outcome
+		t = append([]rune(pad), t...)
+	}
 	lmax := verifParamInt("lmax")
 	_ = lmax
 	L := verifIntSet("L", verifParam("ldom"))
 	L2 := verifIntSet("L2", verifParam("l2dom"))
 	verifAssume(L2 > L)
+	if verifParam("lconcrete") != "" {
+		// long runs: every push compares against the limit, so the limit is case-split up front
+		// (one branch per value of its domain) instead of at every comparison
+		L = verifConcrete(L)
+		L2 = verifConcrete(L2)
+	}
 	// unlimited reference
 	ref, err := verifRE2.FindRunesMatch(t)
 	if err != nil {
